@@ -112,6 +112,10 @@ func vfGenRaw(r *rand.Rand, n int) []vfHostile {
 // seqBase: record sequence numbers are taken from seqBase.. (chosen by the caller).
 func vfGenRecordGrammar(r *rand.Rand, n int, cid []byte, seqBase uint64, thorough bool) []vfHostile {
 	var out []vfHostile
+	// always present: small plaintext-format records that claim a far-future epoch (cheap to send, must stay cheap to receive)
+	for _, ep := range []uint16{0xffff, 0x8000, 300} {
+		out = append(out, vfHostile{Data: vfLegacyRecord(uint8(20+r.IntN(4)), 0xfefd, ep, seqBase+uint64(ep), nil, -1, []byte{1}), Class: "?", Note: fmt.Sprintf("far-future-epoch-%d", ep)})
+	}
 	cts := []uint8{0, 19, 20, 21, 22, 23, 24, 25, 26, 27, 28, 64, 99, 255}
 	for len(out) < n {
 		ct := cts[r.IntN(len(cts))]
@@ -265,11 +269,39 @@ func vfGenFreshDuplicates(genuine [][]byte, cidLen int) []vfHostile {
 			continue
 		}
 		for _, rc := range recs {
-			if rc.Unified || rc.Type != 22 || rc.Epoch != 0 || len(out) >= 24 {
+			if rc.Unified || rc.Type != 22 || rc.Epoch != 0 || len(out) >= 16 {
 				continue
 			}
 			seq++
 			out = append(out, vfHostile{Data: vfLegacyRecord(22, rc.Version, 0, seq, nil, -1, rc.Body), Class: "benign", Note: "fresh-seq-duplicate"})
+		}
+	}
+	// the newest genuine fragment again, more than a thousand times (many copies per record): exact duplicates
+	// occupy one slot, however many arrive
+	if len(genuine) > 0 {
+		if recs, ok := vfParseDatagram(genuine[len(genuine)-1], cidLen); ok {
+			for _, rc := range recs {
+				if rc.Unified || rc.Type != 22 || rc.Epoch != 0 {
+					continue
+				}
+				h, _, ok := vfParseHS(rc.Body)
+				if !ok || h.FragLen == 0 {
+					continue
+				}
+				one := rc.Body[:12+int(h.FragLen)]
+				per := 7800 / len(one)
+				if per < 1 {
+					break
+				}
+				body := bytes.Repeat(one, per)
+				// at most 16 datagrams: the record numbers must stay within the replay window of the genuine ones
+				for copies, dg := 0, 0; copies < 1150 && dg < 16; copies, dg = copies+per, dg+1 {
+					seq++
+					out = append(out, vfHostile{Data: vfLegacyRecord(22, rc.Version, 0, seq, nil, -1, body), Class: "benign", Note: fmt.Sprintf("%d copies of one fragment", per)})
+				}
+
+				break
+			}
 		}
 	}
 
